@@ -908,10 +908,10 @@ def check_none(ctx, R="C08.none"):
 
 
 def check(ctx):
-    check_sources(ctx)
-    check_cmpops(ctx)
-    check_polarity(ctx)
-    check_subset(ctx)
-    check_progress(ctx)
-    check_room(ctx)
-    check_none(ctx)
+    ctx.run(check_sources)
+    ctx.run(check_cmpops)
+    ctx.run(check_polarity)
+    ctx.run(check_subset)
+    ctx.run(check_progress)
+    ctx.run(check_room)
+    ctx.run(check_none)
